@@ -22,6 +22,7 @@ RULE = (
     "sample (merge smoothers). distinct = distinct case JSON."
     ' In half the cases the generator handed over is a PCG64 whose stream repeats words at drawn positions (vf.randomctl.StutterGenerator).'
     ' Also: every plate-size limit 1 .. 420 (thorough 2100) with samples of m, m-1, 2m, k*m, k*m+1 experiments (sample-segregating generator, fixed-size smoother).'
+    ' Also: fixed screens with 42 .. 500 samples, most of them with a single unobserved plate.'
 )
 ASSUMPTIONS = [
     "guarantees are asserted on the unobserved plates of the returned screen (the observed part passes through: C11)",
@@ -111,6 +112,17 @@ def exhaustive(tier):
     top = 420 if tier == "quick" else 2100
     for a in range(1, top, 60):
         yield {"kind": "size_sweep", "limits": [a, min(a + 60, top)], "seed": a}
+    # screens with as many samples (cell lines) as a real campaign: most have a single unobserved plate, a few have several
+    for ns, rich, k in [(42, 2, 2), (130, 5, 3)] + ([(260, 9, 2), (70, 1, 4), (500, 20, 2)] if tier != "quick" else []):
+        rows = []
+        for s_ in range(ns):
+            n_pl = (k + s_ % 2) if s_ % (ns // rich) == 0 else 1 + (s_ % 7 == 3) * (k - 2 if k > 2 else 0)
+            for j in range(max(1, n_pl)):
+                for r_ in range(1 + (s_ + j) % 2):
+                    rows.append({"s": "line%03d" % s_, "p": "pl_%03d_%d" % ((7 * s_) % ns, j), "t": ["t%d" % ((s_ + r_) % 4), "t%d" % ((s_ + r_ + 1 + j % 3) % 4)], "d": [1.0, 2.0], "o": 0.5})
+        rows.append({"s": "line000", "p": "zz_observed", "t": ["t0", "ctl"], "d": [1.0, 0.0], "o": 0.9})
+        sc = {"arity": 2, "control": "ctl", "rows": rows, "observed": ["zz_observed"], "ns": ns, "nt": 8, "ssp": True, "layout": None}
+        yield {"screen": sc, "seed": ns, "stutter": None, "max_plate_size": 3, "pairwise": {"name": "Pairwise", "subset_size": 1, "anchor_size": 0}, "plate_size": 2, "k": k, "min_size": 3, "n_iterations": 1, "cover_flag": True, "mixed_layout": False, "pairwise_screen": None, "filter_screen": None}
 
 
 def _check_size_sweep(case):
